@@ -12,3 +12,34 @@ def register(reg):
         "over <,=,> so length<=4 sequences traverse every transition: exhaustive for the behaviour, not a sample.",
         "Markers restricted to the values artap writes (False/True); NaN and mixed lengths outside the statement.",
         "DESIGN.md section 5 C01")
+
+    reg("C02", "ENUM", "exploration",
+        "bounded exhaustive enumeration of populations in every input order; coverage in labelled posets realised",
+        "Every sequence of up to 4 (one objective: 6; thorough: 5 over a 5x5 grid) cost vectors, in every order, sorted by the "
+        "real sorter and compared with rank by the recursive definition. The sorter sees costs only through the verdict matrix; "
+        "the run counts the distinct labelled dominance relations it realised against the number of labelled posets "
+        "(1,3,19,219,4231), so for populations up to that size the result holds for any number of objectives and any values.",
+        "Comparator correctness is C01's job; ids unique within a population.",
+        "DESIGN.md section 5 C02")
+    reg("C03", "ENUM", "exploration",
+        "bounded exhaustive enumeration of ranked populations x truncation sizes, fronts, tournament draws",
+        "Every sequence of <=4 designs over a 4x4 vector lattice (with the -1.0/-2.0 hash collision and colliding costs) x every k; "
+        "every front with tie-free permutation columns (exact formula) and tie-rich columns (bounds only, as stated); every "
+        "population x every ordered candidate pair x both coin results for the tournament, with the draws owned by the harness.",
+        "Front numbers come from the real sorter (C02). The exact crowding formula is demanded only on tie-free fronts.",
+        "DESIGN.md section 5 C03")
+    reg("C04", "BFS", "model_checking",
+        "explicit-state BFS to a fixed point over real Archive objects, lockstep reference model",
+        "All reachable ordered archive contents over finite cost alphabets are enumerated until no new state appears, so the "
+        "add() clauses are decided for histories of every length over those alphabets, for the Pareto and two epsilon "
+        "comparators; every transition is an execution of the real add() compared with nd(offered). Short histories from "
+        "scratch and every truncate on every reachable state complete it.",
+        "Archive has no state beyond its ordered member list; the alphabets realise all order relations of <=3 values per objective.",
+        "DESIGN.md section 5 C04")
+    reg("C20", "ENUM", "exploration",
+        "bounded exhaustive enumeration of vector pairs, perturbation subsets and scripted generate() runs",
+        "All base vectors n<=4 over a lattice x every non-empty coordinate subset x every amount assignment, both orders, against "
+        "equality by definition; membership/set/remove on all small lists (incl. colliding hashes); GeneticAlgorithm.generate "
+        "driven by every script of three child pairs with stub operators.",
+        "Equal-length finite vectors; amounts keep clear of the 1e-10 threshold.",
+        "DESIGN.md section 5 C20")
